@@ -204,4 +204,302 @@ theorem c20_boltSpread_spec [AddCommMonoid S] (half gap g : Nat) (hhalf : half =
   · rw [if_pos h1, if_neg (show ¬ (1 - q = qs) by omega), add_zero]
   · rw [if_neg h1, if_pos (show 1 - q = qs by omega), zero_add]
 
+/-! ### the accepted helpers and the encoders -/
+
+theorem c20_boltDcNew_ok {m r n N : Nat} {h : BoltCc} (hnew : BoltCc.newDc m r n N = .ok h) (hpow : ∃ e, N = 2^e) (hN64 : N < 2^64) :
+    h.N = N ∧ h.mAll = m ∧ h.r = r ∧ h.nAll = n ∧ 0 < n ∧ ∃ half g, c20_CcOK h half g := by
+  unfold BoltCc.newDc at hnew
+  dsimp only at hnew
+  split at hnew
+  · cases hnew
+  rename_i hc
+  cases hnew
+  have h1 : min (max m r) (N / 2) ≠ 0 := fun h => hc (Or.inl h)
+  have h2 : n ≠ 0 := fun h => hc (Or.inr (Or.inl h))
+  have h3 : N / 2 ≠ 0 := fun h => hc (Or.inr (Or.inr h))
+  obtain ⟨half, g, e1, e2, e3, e4, e5⟩ := c20_boltCc_params hpow hN64 (Nat.min_le_right _ _) h3
+  exact ⟨rfl, rfl, rfl, rfl, Nat.pos_of_ne_zero h2, half, g,
+    { hN := e1, hgsc := e2, hhalf := e3, hg := e4, hm0 := Nat.pos_of_ne_zero h1, hmg := e5 }⟩
+
+/-- `MatmulBoltCcDcSmall::encode_inputs`: column `c` of polynomial `i` holds diagonal `i·gsc + c` of the block: entry `k` is
+    `a[sy + k][sx + (i·gsc + k + c) mod m]` (for every `k < gap` with the row inside the matrix) -/
+theorem c20_boltDcEncIn_spec (z : S) (h : BoltCc) {half g : Nat} (ok : c20_CcOK h half g) (a : Nat → S) (sy sx i : Nat) :
+    ∃ arr, boltDcEncIn h z a sy sx i = .ok arr ∧ arr.size = h.N ∧
+      ∀ c k, c < h.gsc → k < h.gap → arr.getD (c * h.gap + k) z =
+        if sy + k < h.mAll ∧ sx + (i * h.gsc + k + c) % h.m < h.r then a ((sy + k) * h.r + (sx + (i * h.gsc + k + c) % h.m)) else z := by
+  unfold boltDcEncIn
+  have hmemI : ∀ jk : Nat × Nat, jk ∈ ((pairs h.gsc h.gap).filter fun jk =>
+      sy + jk.2 < h.mAll ∧ sx + (i * h.gsc + jk.2 + jk.1) % h.m < h.r) ↔
+      (jk.1 < h.gsc ∧ jk.2 < h.gap) ∧ (sy + jk.2 < h.mAll ∧ sx + (i * h.gsc + jk.2 + jk.1) % h.m < h.r) := by
+    intro jk
+    rw [List.mem_filter, c20_mem_pairs, decide_eq_true_eq]
+  obtain ⟨arr, hok, hsz, hz, hv⟩ := c20_scatter_map z h.N h.N
+    ((pairs h.gsc h.gap).filter fun jk => sy + jk.2 < h.mAll ∧ sx + (i * h.gsc + jk.2 + jk.1) % h.m < h.r)
+    (fun jk => jk.1 * h.gap + jk.2) (fun jk => a ((sy + jk.2) * h.r + (sx + (i * h.gsc + jk.2 + jk.1) % h.m)))
+    (by
+      intro jk hjk
+      obtain ⟨⟨h1, h2⟩, _⟩ := (hmemI jk).mp hjk
+      show jk.1 * h.gap + jk.2 < h.N ∧ jk.1 * h.gap + jk.2 < h.N
+      rw [ok.hN]
+      have := c20_succ_mul_le (ib := h.gap) h1
+      omega)
+    (by
+      intro k hk k' hk' heq
+      obtain ⟨⟨_, h2⟩, _⟩ := (hmemI k).mp hk
+      obtain ⟨⟨_, h2'⟩, _⟩ := (hmemI k').mp hk'
+      obtain ⟨e2, e1⟩ := c20_digit_unique (W := h.gap) h2' h2 heq
+      show a _ = a _
+      rw [e1, e2])
+  refine ⟨arr, hok, hsz, ?_⟩
+  intro c k hc hk
+  split
+  · rename_i hcond
+    exact hv (c, k) ((hmemI (c, k)).mpr ⟨⟨hc, hk⟩, hcond⟩)
+  · rename_i hcond
+    apply hz
+    intro jk hjk heq
+    obtain ⟨⟨_, h2⟩, h3⟩ := (hmemI jk).mp hjk
+    obtain ⟨e2, e1⟩ := c20_digit_unique (W := h.gap) hk h2 heq
+    rw [e1, e2] at h3
+    exact hcond h3
+
+/-- `MatmulBoltCcDcSmall::encode_weights`: column-major rows `sy ..` of the RHS, columns `i·gsc ..` -/
+theorem c20_boltDcEncW_spec (z : S) (h : BoltCc) {half g : Nat} (ok : c20_CcOK h half g) (b : Nat → S) (sy i : Nat) :
+    ∃ arr, boltDcEncW h z b sy i = .ok arr ∧ arr.size = h.N ∧
+      ∀ c k, c < h.gsc → k < h.gap → arr.getD (c * h.gap + k) z =
+        if k < h.m ∧ sy + k < h.r ∧ i * h.gsc + c < h.nAll then b ((sy + k) * h.nAll + (i * h.gsc + c)) else z := by
+  unfold boltDcEncW
+  have hmg := ok.hmg
+  have hmemI : ∀ ck : Nat × Nat, ck ∈ ((pairs (min h.nAll (i * h.gsc + h.gsc) - i * h.gsc) h.m).filter fun ck =>
+      sy + ck.2 < h.r ∧ i * h.gsc + ck.1 < h.nAll) ↔
+      (ck.1 < min h.nAll (i * h.gsc + h.gsc) - i * h.gsc ∧ ck.2 < h.m) ∧ (sy + ck.2 < h.r ∧ i * h.gsc + ck.1 < h.nAll) := by
+    intro ck
+    rw [List.mem_filter, c20_mem_pairs, decide_eq_true_eq]
+  obtain ⟨arr, hok, hsz, hz, hv⟩ := c20_scatter_map z h.N h.N
+    ((pairs (min h.nAll (i * h.gsc + h.gsc) - i * h.gsc) h.m).filter fun ck => sy + ck.2 < h.r ∧ i * h.gsc + ck.1 < h.nAll)
+    (fun ck => ck.1 * h.gap + ck.2) (fun ck => b ((sy + ck.2) * h.nAll + (i * h.gsc + ck.1)))
+    (by
+      intro ck hck
+      obtain ⟨⟨h1, h2⟩, _⟩ := (hmemI ck).mp hck
+      have hc : ck.1 < h.gsc := by omega
+      show ck.1 * h.gap + ck.2 < h.N ∧ ck.1 * h.gap + ck.2 < h.N
+      rw [ok.hN]
+      have := c20_succ_mul_le (ib := h.gap) hc
+      omega)
+    (by
+      intro k hk k' hk' heq
+      obtain ⟨⟨_, h2⟩, _⟩ := (hmemI k).mp hk
+      obtain ⟨⟨_, h2'⟩, _⟩ := (hmemI k').mp hk'
+      obtain ⟨e2, e1⟩ := c20_digit_unique (W := h.gap) (by omega) (by omega) heq
+      show b _ = b _
+      rw [e1, e2])
+  refine ⟨arr, hok, hsz, ?_⟩
+  intro c k hc hk
+  split
+  · rename_i hcond
+    exact hv (c, k) ((hmemI (c, k)).mpr ⟨⟨by show c < _; omega, hcond.1⟩, hcond.2.1, hcond.2.2⟩)
+  · rename_i hcond
+    apply hz
+    intro ck hck heq
+    obtain ⟨⟨_, h2⟩, h3⟩ := (hmemI ck).mp hck
+    obtain ⟨e2, e1⟩ := c20_digit_unique (W := h.gap) hk (by omega) heq
+    rw [e1, e2] at h3
+    rw [e2] at h2
+    exact hcond ⟨h2, h3.1, h3.2⟩
+
+/-- the LHS polynomial `ii` of block (`i`, `j`) and the RHS polynomial `i` of row part `p` -/
+def c20_dcIn (z : S) (h : BoltCc) (x : Nat → S) (i j ii : Nat) : Array S := c20_val #[] (boltDcEncIn h z x (i * h.m) (j * h.m) ii)
+def c20_dcW (z : S) (h : BoltCc) (w : Nat → S) (p i : Nat) : Array S := c20_val #[] (boltDcEncW h z w (p * h.m) i)
+
+theorem c20_boltDcEncodeInputs_ok (z : S) (h : BoltCc) {half g : Nat} (ok : c20_CcOK h half g) (x : Nat → S) :
+    boltDcEncodeInputs h z x (h.mAll * h.r)
+      = .ok ((pairs (ceilDiv h.mAll h.m) (ceilDiv h.r h.m)).map fun ij => (List.range (ceilDiv h.m h.gsc)).map fun ii =>
+          c20_dcIn z h x ij.1 ij.2 ii) := by
+  unfold boltDcEncodeInputs
+  rw [if_neg (by simp)]
+  apply c20_mapM_eq
+  intro ij _
+  apply c20_mapM_eq
+  intro ii _
+  obtain ⟨arr, hok, _⟩ := c20_boltDcEncIn_spec z h ok x (ij.1 * h.m) (ij.2 * h.m) ii
+  exact c20_val_ok #[] hok
+
+theorem c20_boltDcEncodeWeights_ok (z : S) (h : BoltCc) {half g : Nat} (ok : c20_CcOK h half g) (w : Nat → S) :
+    boltDcEncodeWeights h z w (h.r * h.nAll)
+      = .ok ((List.range (ceilDiv h.r h.m)).map fun p => (List.range (ceilDiv h.nAll h.gsc)).map fun i => c20_dcW z h w p i) := by
+  unfold boltDcEncodeWeights
+  rw [if_neg (by simp)]
+  apply c20_mapM_eq
+  intro p _
+  apply c20_mapM_eq
+  intro i _
+  obtain ⟨arr, hok, _⟩ := c20_boltDcEncW_spec z h ok w (p * h.m) i
+  exact c20_val_ok #[] hok
+
+theorem c20_dcIn_get (z : S) (h : BoltCc) {half g : Nat} (ok : c20_CcOK h half g) (x : Nat → S) (i j ii : Nat) {c k : Nat}
+    (hc : c < h.gsc) (hk : k < h.gap) :
+    (c20_dcIn z h x i j ii).getD (c * h.gap + k) z =
+      if i * h.m + k < h.mAll ∧ j * h.m + (ii * h.gsc + k + c) % h.m < h.r
+      then x ((i * h.m + k) * h.r + (j * h.m + (ii * h.gsc + k + c) % h.m)) else z := by
+  obtain ⟨arr, hok, _, hget⟩ := c20_boltDcEncIn_spec z h ok x (i * h.m) (j * h.m) ii
+  have e : c20_dcIn z h x i j ii = arr := by unfold c20_dcIn; rw [hok]; rfl
+  rw [e, hget c k hc hk]
+
+theorem c20_dcW_get (z : S) (h : BoltCc) {half g : Nat} (ok : c20_CcOK h half g) (w : Nat → S) (p i : Nat) {c k : Nat}
+    (hc : c < h.gsc) (hk : k < h.gap) :
+    (c20_dcW z h w p i).getD (c * h.gap + k) z =
+      if k < h.m ∧ p * h.m + k < h.r ∧ i * h.gsc + c < h.nAll then w ((p * h.m + k) * h.nAll + (i * h.gsc + c)) else z := by
+  obtain ⟨arr, hok, _, hget⟩ := c20_boltDcEncW_spec z h ok w (p * h.m) i
+  have e : c20_dcW z h w p i = arr := by unfold c20_dcW; rw [hok]; rfl
+  rw [e, hget c k hc hk]
+
+/-! ### `MatmulBoltCcDcSmall::multiply` -/
+
+/-- the spread polynomial (value of `spread_inputs`) -/
+def c20_dcSP [Add S] [Zero S] (h : BoltCc) (lo hi : Nat) (ai : Array S) : Array S :=
+  c20_val #[] (boltSpread (· + ·) 0 h.N h.gap lo hi ai)
+
+theorem c20_dcSP_get [AddCommMonoid S] (h : BoltCc) {half g : Nat} (ok : c20_CcOK h half g) (ai : Array S) (lo hi σ : Nat)
+    (hσ : σ < h.gsc) (hlo : σ * h.gap ≤ lo) (hlh : lo < hi) (hhi : hi ≤ σ * h.gap + h.gap) :
+    boltSpread (· + ·) 0 h.N h.gap lo hi ai = .ok (c20_dcSP h lo hi ai) ∧ (c20_dcSP h lo hi ai).size = h.N ∧
+      ∀ c t, c < h.gsc → t < h.gap →
+        (c20_dcSP h lo hi ai).getD (c * h.gap + t) 0 = if lo ≤ σ * h.gap + t ∧ σ * h.gap + t < hi then ai.getD (σ * h.gap + t) 0 else 0 := by
+  obtain ⟨r, hr, hsz, hget⟩ := c20_boltSpread_spec half h.gap g ok.hhalf ok.hg ok.gap_pos ai lo hi σ (by rw [← ok.hgsc]; exact hσ)
+    hlo hlh hhi
+  rw [← ok.hN2] at hr hsz
+  have e : c20_dcSP h lo hi ai = r := by unfold c20_dcSP; rw [hr]; rfl
+  rw [e]
+  exact ⟨hr, hsz, fun c t hc ht => hget c t (by rw [← ok.hgsc]; exact hc) ht⟩
+
+theorem c20_list_sum_filter {M : Type} [AddCommMonoid M] (p : Nat → Prop) [DecidablePred p] (F : Nat → M) :
+    ∀ l : List Nat, ((l.filter fun x => decide (p x)).map F).sum = (l.map fun x => if p x then F x else 0).sum
+  | [] => rfl
+  | x :: l => by
+    rw [List.filter_cons]
+    by_cases hx : p x
+    · simp only [hx, decide_true, if_true, List.map_cons, List.sum_cons]
+      rw [c20_list_sum_filter p F l]
+    · simp only [hx, decide_false, if_false, List.map_cons, List.sum_cons, Bool.false_eq_true]
+      rw [c20_list_sum_filter p F l, zero_add]
+
+/-- **`MatmulBoltCcDcSmall::multiply`** on ANY LHS polynomials `fa ii` (diagonals `ii·gsc ..` of the block) and RHS polynomials `fb o`
+    (column-major): never fails; column `c`, entry `k < m` of output polynomial `o` holds
+    `Σ_sh (fb o)[c][(k + sh) mod m] · (fa (sh / gsc))[sh mod gsc][k]` -/
+theorem c20_dcMulSmall_spec [CommRing S] (h : BoltCc) {half g : Nat} (ok : c20_CcOK h half g) (fa fb : Nat → Array S) :
+    ∃ Yq, boltDcMulSmall h (· + ·) (· * ·) 0 ((List.range (ceilDiv h.m h.gsc)).map fa) ((List.range (ceilDiv h.nAll h.gsc)).map fb)
+        = .ok Yq ∧ Yq.length = ceilDiv h.nAll h.gsc ∧
+      ∀ o, o < ceilDiv h.nAll h.gsc → ∃ v, Yq[o]? = some v ∧ v.size = h.N ∧ ∀ c k, c < h.gsc → k < h.m →
+        v.getD (c * h.gap + k) 0
+          = ∑ sh ∈ range h.m, (fb o).getD (c * h.gap + (k + sh) % h.m) 0 * (fa (sh / h.gsc)).getD (sh % h.gsc * h.gap + k) 0 := by
+  have hh := ok.half_pos
+  have hgs := ok.gsc_pos
+  have hmg := ok.hmg
+  have hm0 := ok.hm0
+  have hH : h.N / 2 = half * h.gap := ok.hNdiv
+  have hgapH : h.gap ≤ half * h.gap := Nat.le_mul_of_pos_left _ hh
+  have hbind : ∀ {α β : Type} (a : α) (f : α → R β), (Except.ok a >>= f) = f a := fun _ _ => rfl
+  unfold boltDcMulSmall
+  simp only [List.length_map, List.length_range, ne_eq, not_true_eq_false, or_self, if_false]
+  refine c20_mapM_spec' _ (fun (o : Nat) (v : Array S) => v.size = h.N ∧ ∀ c k, c < h.gsc → k < h.m →
+      v.getD (c * h.gap + k) 0
+        = ∑ sh ∈ range h.m, (fb o).getD (c * h.gap + (k + sh) % h.m) 0 * (fa (sh / h.gsc)).getD (sh % h.gsc * h.gap + k) 0) _ _ ?_ ?_
+  swap
+  · intro Yq hlen hall
+    refine ⟨by simpa using hlen, ?_⟩
+    intro o ho
+    obtain ⟨v, hv, hP⟩ := hall o (by simpa using ho)
+    rw [List.getElem_range] at hP
+    exact ⟨v, hv, hP⟩
+  intro o ho
+  have ho' : o < ceilDiv h.nAll h.gsc := List.mem_range.mp ho
+  rw [c20_getSlots_map _ _ _ ho']
+  simp only [hbind]
+  have hstep : ∀ (rot lo hi sh σ : Nat) (acc : Option (Array S)), sh < h.m → σ < h.gsc → σ * h.gap ≤ lo → lo < hi →
+      hi ≤ σ * h.gap + h.gap →
+      (do
+        let ai ← getSlots ((List.range (ceilDiv h.m h.gsc)).map fa) (sh / h.gsc)
+        let ma ← boltSpread (· + ·) 0 h.N h.gap lo hi ai
+        (pure (accAdd (· + ·) 0 h.N acc (slotZip (· * ·) 0 h.N (rotRows 0 h.N rot (fb o)) ma)) : R (Option (Array S))))
+      = .ok (accAdd (· + ·) 0 h.N acc (slotZip (· * ·) 0 h.N (rotRows 0 h.N rot (fb o)) (c20_dcSP h lo hi (fa (sh / h.gsc))))) := by
+    intro rot lo hi sh σ acc hsh hσ h1 h2 h3
+    rw [c20_getSlots_map _ _ _ (c20_div_lt_ceilDiv hgs hsh)]
+    simp only [hbind]
+    rw [(c20_dcSP_get h ok (fa (sh / h.gsc)) lo hi σ hσ h1 h2 h3).1]
+    rfl
+  rw [c20_foldlM_pure _ (fun acc sh => accAdd (· + ·) 0 h.N acc (slotZip (· * ·) 0 h.N (rotRows 0 h.N (sh % (h.N / 2)) (fb o))
+    (c20_dcSP h (sh % h.gsc * h.gap) (sh % h.gsc * h.gap + (h.m - sh)) (fa (sh / h.gsc))))) _ _
+    (fun st sh hsh => by
+      have hsh' := List.mem_range.mp hsh
+      exact hstep _ _ _ sh (sh % h.gsc) st hsh' (Nat.mod_lt _ hgs) (le_refl _) (by omega) (by omega))]
+  simp only [hbind]
+  rw [c20_foldlM_pure _ (fun acc sh => accAdd (· + ·) 0 h.N acc (slotZip (· * ·) 0 h.N
+      (rotRows 0 h.N ((h.N / 2 - (h.m - sh) % (h.N / 2)) % (h.N / 2)) (fb o))
+      (c20_dcSP h (sh % h.gsc * h.gap + (h.m - sh)) (sh % h.gsc * h.gap + (h.m - sh) + sh) (fa (sh / h.gsc))))) _ _
+    (fun st sh hsh => by
+      rw [List.mem_filter, List.mem_reverse, List.mem_range, decide_eq_true_eq] at hsh
+      exact hstep _ _ _ sh (sh % h.gsc) st hsh.1 (Nat.mod_lt _ hgs) (by omega) (by omega) (by omega))]
+  -- the accumulated products
+  have hl1 : List.range h.m ≠ [] := by intro h0; have := congrArg List.length h0; simp at this; omega
+  have hne := c20_accFold_ne_none (· + ·) h.N
+    (fun sh => slotZip (· * ·) 0 h.N (rotRows 0 h.N ((h.N / 2 - (h.m - sh) % (h.N / 2)) % (h.N / 2)) (fb o))
+      (c20_dcSP h (sh % h.gsc * h.gap + (h.m - sh)) (sh % h.gsc * h.gap + (h.m - sh) + sh) (fa (sh / h.gsc))))
+    ((List.range h.m).reverse.filter fun sh => sh ≠ 0) _
+    (Or.inr (c20_accFold_ne_none (· + ·) h.N
+      (fun sh => slotZip (· * ·) 0 h.N (rotRows 0 h.N (sh % (h.N / 2)) (fb o))
+        (c20_dcSP h (sh % h.gsc * h.gap) (sh % h.gsc * h.gap + (h.m - sh)) (fa (sh / h.gsc))))
+      (List.range h.m) none (Or.inl hl1)))
+  have hwf := c20_accFold_wf (· + ·) h.N
+    (fun sh => slotZip (· * ·) 0 h.N (rotRows 0 h.N ((h.N / 2 - (h.m - sh) % (h.N / 2)) % (h.N / 2)) (fb o))
+      (c20_dcSP h (sh % h.gsc * h.gap + (h.m - sh)) (sh % h.gsc * h.gap + (h.m - sh) + sh) (fa (sh / h.gsc))))
+    ((List.range h.m).reverse.filter fun sh => sh ≠ 0) _
+    (fun x _ => c20_slotZip_size _ _ _ _ _)
+    (c20_accFold_wf (· + ·) h.N
+      (fun sh => slotZip (· * ·) 0 h.N (rotRows 0 h.N (sh % (h.N / 2)) (fb o))
+        (c20_dcSP h (sh % h.gsc * h.gap) (sh % h.gsc * h.gap + (h.m - sh)) (fa (sh / h.gsc))))
+      (List.range h.m) none (fun x _ => c20_slotZip_size _ _ _ _ _) (c20_wf_none _))
+  refine ⟨_, c20_unwrapAcc_getD hne, ?_, ?_⟩
+  · obtain ⟨v, hv⟩ := Option.ne_none_iff_exists'.mp hne
+    rw [hv]; exact hwf v hv
+  intro c k hc hk
+  have hkg : k < h.gap := by omega
+  have hc2 : c < 2 * half := by rw [← ok.hgsc]; exact hc
+  have hp : c * h.gap + k < h.N := by rw [ok.hN]; have := c20_succ_mul_le (ib := h.gap) hc; omega
+  have hp2 : c * h.gap + k < 2 * (half * h.gap) := by rw [← ok.hN2]; exact hp
+  rw [c20_og_getD hne, c20_accFold_og h.N _ hp, c20_accFold_og h.N _ hp, c20_list_sum_filter (fun sh => sh ≠ 0),
+    List.map_reverse, List.sum_reverse, c20_list_sum_range, c20_list_sum_range]
+  show 0 + _ + _ = _
+  rw [zero_add, ← Finset.sum_add_distrib]
+  apply Finset.sum_congr rfl
+  intro sh hsh
+  have hsh' := Finset.mem_range.mp hsh
+  have hσ := Nat.mod_lt sh hgs
+  rw [c20_slotZip_get _ _ _ _ _ hp, c20_slotZip_get _ _ _ _ _ hp,
+    (c20_dcSP_get h ok (fa (sh / h.gsc)) _ _ (sh % h.gsc) hσ (le_refl _) (by omega) (by omega)).2.2 c k hc hkg]
+  rcases Nat.lt_or_ge k (h.m - sh) with hlo | hhi
+  · -- reached by the left shift
+    have h2z : (if sh ≠ 0 then (rotRows 0 h.N ((h.N / 2 - (h.m - sh) % (h.N / 2)) % (h.N / 2)) (fb o)).getD (c * h.gap + k) 0 *
+        (c20_dcSP h (sh % h.gsc * h.gap + (h.m - sh)) (sh % h.gsc * h.gap + (h.m - sh) + sh) (fa (sh / h.gsc))).getD (c * h.gap + k) 0
+        else (0 : S)) = 0 := by
+      split
+      · rename_i hne0
+        rw [(c20_dcSP_get h ok (fa (sh / h.gsc)) _ _ (sh % h.gsc) hσ (by omega) (by omega) (by omega)).2.2 c k hc hkg,
+          if_neg (by omega), mul_zero]
+      · rfl
+    rw [h2z, add_zero, if_pos ⟨by omega, by omega⟩]
+    congr 1
+    rw [hH, ok.hN2, c20_rotRows_get 0 _ _ _ hp2, Nat.mod_eq_of_lt (by omega : sh < half * h.gap),
+      c20_rho_incol_add hh (by omega : k + sh < h.gap), Nat.mod_eq_of_lt (by omega : k + sh < h.m)]
+  · -- reached by the right shift
+    have hsh0 : sh ≠ 0 := by omega
+    rw [if_neg (by omega), mul_zero, zero_add, if_pos hsh0,
+      (c20_dcSP_get h ok (fa (sh / h.gsc)) _ _ (sh % h.gsc) hσ (by omega) (by omega) (by omega)).2.2 c k hc hkg,
+      if_pos ⟨by omega, by omega⟩]
+    congr 1
+    have e1 : (h.m - sh) % (half * h.gap) = h.m - sh := Nat.mod_eq_of_lt (by omega)
+    have e2 : (half * h.gap - (h.m - sh)) % (half * h.gap) = half * h.gap - (h.m - sh) := Nat.mod_eq_of_lt (by omega)
+    have e3 : (k + sh) % h.m = k - (h.m - sh) := by
+      have e : k + sh = (k - (h.m - sh)) + h.m := by omega
+      rw [e, Nat.add_mod_right, Nat.mod_eq_of_lt (by omega)]
+    rw [hH, ok.hN2, c20_rotRows_get 0 _ _ _ hp2, e1, e2, c20_rho_incol_sub hh hkg hhi, e3]
+
 end HC
